@@ -98,6 +98,8 @@ def group_runs(g, tier):
                 runs.append(dict(kind='tree2', cfg1=c1, cfg2=c2, names=['ascii', 'prefix', 'dotted', 'multi'][k % 4], b=[1, 1, 4096, 8193][k % 4] if q else [1, 2731, 8193, 21846][k % 4],
                                  frac=(0.004 if heavy else 0.008) if q else 0.25, inst='MC_Tree2_q', tspec='Trace_Tree2'))
         return runs
+    if g == 'emb':
+        return [dict(kind='emb', tspec='Trace_Tree')]
     if g == 'faults':
         k = 1 if q else 15
         cfgs = [('fault(mem)', 60, False), ('alt(zr,fault(mem))', 40, False), ('ovl(fault(mem),mem)', 40, True), ('ovl(mem,fault(mem))', 60, True),
@@ -174,6 +176,12 @@ def run_group(g, tier, seed, use_cache=True):
             l2 = ensure_lts(r['inst'], r['inst'] + '_emit')
             s = harness(['tree2', '--lts', l2, '--cfg1', r['cfg1'], '--cfg2', r['cfg2'], '--names', r['names'], '--b', r['b'], '--frac', r['frac'],
                          '--seed', seed * 1000 + i, '--out', out])
+        elif r['kind'] == 'emb':
+            mc = run_mc('MC_ReadOnly', 'MC_ReadOnly')
+            if not mc['ok']:
+                raise ToolError('model checking of MC_ReadOnly failed:\n%s' % mc.get('tail', ''))
+            mcs['MC_ReadOnly'] = mc
+            s = harness(['emb', '--out', out])
         elif r['kind'] == 'faults':
             inst = r['lts']
             if inst not in ltsfiles:
@@ -296,6 +304,7 @@ PROPS = {
     'C08': dict(groups=['ovl']),
     'C09': dict(groups=['ovl']),
     'C06': dict(groups=['join']),
+    'C18': dict(groups=['emb']),
     'C20': dict(groups=['faults']),
     'C16': dict(groups=['conc16']),
     'C17': dict(groups=['conc17']),
@@ -428,6 +437,12 @@ MANIFEST_TEXT = {
                 'TLC checks on every distinct history: all calls ok, every requested path and ancestor is a directory, tree well-formed, no panic/deadlock.',
                 note='Trusted: TLC; the scheduler. PhysicalFS interleavings are explored at create_dir granularity (the OS is not modelled below the syscall boundary).',
                 technique='schedule exploration (hooks) + TLC trace validation (Trace_Lin)', ref='DESIGN.md 6 C17'),
+    'C18': dict(level='EmbeddedFS over a committed fixture folder (nested, dotted, multi-byte, prefix-sharing names a.txt / a.txt.dir, an empty file, non-UTF-8 bytes) is judged by Level A in read-only mode: '
+                'the init event carries the observation of a PhysicalFS on a copy of the same folder as ground truth (conjunct truth: existence, type, length, bytes, listings, walks for every path of a 21-path universe incl. absent siblings, '
+                'prefixes of names and paths below files, and the root); then EVERY mutating operation is applied to EVERY universe path (transfers to 4 destinations, 3 timestamp fields) and TLC checks the class '
+                '(not_supported whenever the path layer pre-checks pass) and that the complete observation is unchanged. TLC also model-checks the read-only contract (MC_ReadOnly: refused, unchanged) on the bounded universe.',
+                note='Trusted: TLC; rust-embed derive on the fixture; the fixture is finite, so the (path x operation) space is enumerated completely.',
+                technique='TLA+ read-only Level A (ReadOnlyOp) + exhaustive (path x operation) trace validation against a PhysicalFS ground truth', ref='DESIGN.md 6 C18'),
     'C20': dict(level='Fault enumeration judged by TLC: a FaultFS wrapper (public FileSystem trait) makes the k-th call into a base filesystem return an I/O error. For seeded (model state, operation) pairs of the Level-A LTS '
                 '(biased to composites and adapter operations) and for observer operations (exists, is_dir, is_file, metadata, read_dir, walk_dir, read_to_string), the fault-free run is probed for its call count n and the operation is re-run '
                 'on an identically rebuilt world for EVERY k in 1..n, on plain, altroot, overlay (fault in the upper or in a lower layer, 2-3 layers) and nested stackings. TLC (Trace_Tree/TrFault) accepts success only with the complete Level-A effect and value, '
